@@ -15,13 +15,26 @@ import (
 )
 
 func c17LengthThresholds(c *Ctx) {
+	c17LenFn(c, "lengthLength")
+	c17LenFn(c, "encodeLength") // short/long form switch: the boundary is 128 (0x80 itself is the indefinite-length marker)
+}
+
+func c17LenFn(c *Ctx, name string) {
 	rule := "K-C17-lenbytes"
-	f := c.Fn("x509", "lengthLength")
+	f := c.Fn("x509", name)
 	if f == nil {
-		c.Missing(rule, "x509.lengthLength", "function", "not found")
+		c.Missing(rule, "x509."+name, "function", "not found")
 		return
 	}
-	if len(f.Params) != 1 {
+	var lenParam *ssa.Parameter
+	nInt := 0
+	for _, p := range f.Params {
+		if p.Type().String() == "int" {
+			lenParam = p
+			nInt++
+		}
+	}
+	if nInt != 1 {
 		c.Undecided(rule, fname(f), "length thresholds", "unexpected signature", f.Pos())
 		return
 	}
@@ -29,7 +42,7 @@ func c17LengthThresholds(c *Ctx) {
 	var rooted func(v ssa.Value, seen map[ssa.Value]bool) bool
 	rooted = func(v ssa.Value, seen map[ssa.Value]bool) bool {
 		v = stripConvAll(v)
-		if v == ssa.Value(f.Params[0]) {
+		if v == ssa.Value(lenParam) {
 			return true
 		}
 		if seen[v] {
